@@ -75,6 +75,21 @@ Fixpoint serial_run (ms : list msg) (p : port) : option (list (result rerr (opti
       end
   end.
 
+(* Everything a conversation does to the port and the clock, in order. *)
+Fixpoint serial_trace (ms : list msg) (p : port) : option (list sev) :=
+  match ms with
+  | [] => Some []
+  | m :: ms' =>
+      match serial_process m p with
+      | None => None
+      | Some (_, p', evs) =>
+          match serial_trace ms' p' with
+          | None => None
+          | Some t => Some (evs ++ t)
+          end
+      end
+  end.
+
 (* ---------- the ODK bridge ---------- *)
 Inductive oerr : Type :=
 | OComm (e : rerr)      (* OdkError::Communication *)
